@@ -18,7 +18,7 @@
 #define ENV_F_DEEP 64
 #define ENV_EC_D 3
 #define ENV_EC_DEEP 256
-#define ENV_MAX 6
+#define ENV_MAX 10
 #define SNAP 64
 
 typedef struct
@@ -31,6 +31,8 @@ typedef struct
 	int nmul; word* mul_b; const word* mul_a; const void* mul_ec; size_t mul_m; int mul_ret; word mul_d[NW]; word mul_aval[2 * NW]; word mul_out[2 * NW];
 	int naddmul; word* am_b; const void* am_ec; size_t am_k; const word* am_pt[2]; word am_ptval[2][2 * NW]; word am_d[2][NW + 1]; size_t am_m[2]; int am_ret; word am_out[2 * NW];
 	int nison; const word* ison_a; word ison_val[2 * NW]; int ison_ret;
+	int hid; const void* h_state[ENV_MAX]; word h_id[ENV_MAX]; word h_cnt[ENV_MAX];
+	int nwbl; const void* wbl_key; size_t wbl_len; octet wbl_keyval[32]; octet wbl_in[3][NO]; octet wbl_out[3][NO]; size_t wbl_count[3];
 	int nh; int h_kind[ENV_MAX]; const void* h_ptr[ENV_MAX]; size_t h_len[ENV_MAX]; octet h_val[ENV_MAX][SNAP]; int h_ret; octet h_out[32];
 	int nzmul; word zmul_a[NW]; size_t zmul_n; word zmul_b[NW]; size_t zmul_m; word zmul_out[2 * NW];
 	int nzmod; word zmod_a[2 * NW + 1]; size_t zmod_n; const word* zmod_mod; size_t zmod_m; word zmod_out[NW];
